@@ -7,12 +7,15 @@ package main
 import (
 	"bytes"
 	"context"
+	"crypto/sha256"
+	"encoding/hex"
 	"encoding/json"
 	"fmt"
 	"io"
 	"net/http"
 	"net/http/httptest"
 	"strings"
+	"sync"
 	"time"
 
 	"github.com/gorilla/websocket"
@@ -114,7 +117,8 @@ func buildAPI(spec *Spec, w *world) (*apifu.API, error) {
 	}
 	logger := logrus.New()
 	logger.SetOutput(io.Discard)
-	cfg := &apifu.Config{Features: featuresFromContext, Logger: logger, HandleGraphQLWSInit: wsInitHook}
+	cfg := &apifu.Config{Features: featuresFromContext, Logger: logger, HandleGraphQLWSInit: wsInitHook,
+		PersistedQueryStorage: &pqStore{m: map[string]string{}}}
 	for name, f := range def.Query.Fields {
 		cfg.AddQueryField(name, f)
 	}
@@ -144,14 +148,51 @@ func canonResponse(raw []byte, q *query) string {
 	return string(bytes.TrimSpace(raw))
 }
 
+// pqStore is the application's PersistedQueryStorage: a plain map.
+type pqStore struct {
+	mu sync.Mutex
+	m  map[string]string
+}
+
+func (s *pqStore) GetPersistedQuery(ctx context.Context, hash []byte) string {
+	s.mu.Lock()
+	defer s.mu.Unlock()
+	return s.m[string(hash)]
+}
+
+func (s *pqStore) PersistQuery(ctx context.Context, query string, hash []byte) {
+	s.mu.Lock()
+	defer s.mu.Unlock()
+	s.m[string(hash)] = query
+}
+
+// pqMode: how a request uses the persisted-query extension.
+const (
+	pqNone     = 0 // plain request
+	pqRegister = 1 // query text + its sha256Hash (stores it)
+	pqHashOnly = 2 // sha256Hash only (the stored text is executed)
+)
+
 func serveHTTP(api *apifu.API, w *world, features []string, q *query) (o outcome) {
+	return serveHTTPPQ(api, w, features, q, pqNone)
+}
+
+func serveHTTPPQ(api *apifu.API, w *world, features []string, q *query, mode int) (o outcome) {
 	w.log = nil
 	defer func() {
 		if p := recover(); p != nil {
 			o.Panic = fmt.Sprint(p)
 		}
 	}()
-	body, _ := json.Marshal(map[string]interface{}{"query": q.Text, "variables": q.Vars})
+	payload := map[string]interface{}{"query": q.Text, "variables": q.Vars}
+	if mode != pqNone {
+		sum := sha256.Sum256([]byte(q.Text))
+		payload["extensions"] = map[string]interface{}{"persistedQuery": map[string]interface{}{"version": 1, "sha256Hash": hex.EncodeToString(sum[:])}}
+		if mode == pqHashOnly {
+			delete(payload, "query")
+		}
+	}
+	body, _ := json.Marshal(payload)
 	ctx := context.WithValue(context.Background(), featKey{}, graphql.NewFeatureSet(features...))
 	r, _ := http.NewRequestWithContext(ctx, "POST", "/graphql", bytes.NewReader(body))
 	r.Header.Set("Content-Type", "application/json")
@@ -380,9 +421,10 @@ func (h *harness) checkAPI(spec *Spec, r interface {
 		for _, q := range qs(F) {
 			q := q
 			respect := r.Intn(2) == 0
+			overlap := r.Intn(2) == 0
 			seed := r.Uint64()
 			for _, w := range []*world{fw, ew} {
-				w.respect, w.seed = respect, seed
+				w.respect, w.seed, w.overlap = respect, seed, overlap
 			}
 			a := serveHTTP(full, fw, F, &q)
 			b := serveHTTP(erased, ew, nil, &q)
@@ -398,7 +440,28 @@ func (h *harness) checkAPI(spec *Spec, r interface {
 			h.run.Count("api:http")
 			h.run.Oblige(obAPI, "oracle", 1, what == "", what)
 			if what != "" {
-				h.reportAPI(&Case{Spec: spec.clone(), F: F, Query: q, Respect: respect, Seed: seed, Doc: q.doc}, "API/HTTP: "+what)
+				h.reportAPI(&Case{Spec: spec.clone(), F: F, Query: q, Respect: respect, Overlap: overlap, Seed: seed, Doc: q.doc}, "API/HTTP: "+what)
+			}
+			// the same query through the persisted-query extension on S (Config.PersistedQueryStorage
+			// together with Config.Features): registering it (text + hash) and then asking for it by
+			// hash only must both answer like the plain request against the erased schema
+			if a.Panic == "" && b.Panic == "" && q.Text != "" {
+				for _, mode := range []int{pqRegister, pqHashOnly} {
+					ap := serveHTTPPQ(full, fw, F, &q, mode)
+					what := compareOutcomes(origX, F, ap, b)
+					if what != "" {
+						for i := 0; i < 4 && what != ""; i++ {
+							if a2 := serveHTTPPQ(full, fw, F, &q, mode); a2.Resp == b.Resp {
+								what = ""
+							}
+						}
+					}
+					h.run.Count("api:http:persisted-query")
+					h.run.Oblige(obAPI, "oracle", 1, what == "", what)
+					if what != "" {
+						h.reportAPI(&Case{Spec: spec.clone(), F: F, Query: q, Respect: respect, Overlap: overlap, Seed: seed, Doc: q.doc, PQ: true}, "API/HTTP persisted query: "+what)
+					}
+				}
 			}
 			// a panic in the HTTP path (recovered there, equal on both sides) would kill the process on
 			// the WebSocket connection's goroutine: such a query is not sent over the socket
@@ -427,7 +490,7 @@ func (h *harness) checkAPI(spec *Spec, r interface {
 					h.run.Oblige(obAPI, "oracle", 1, what == "", what)
 					if what != "" {
 						v := wsVar[vi]
-						h.reportAPI(&Case{Spec: spec.clone(), F: F, Query: q, Respect: respect, Seed: seed, Doc: q.doc, WS: &v}, "API/WS ("+v.String()+"): "+what)
+						h.reportAPI(&Case{Spec: spec.clone(), F: F, Query: q, Respect: respect, Overlap: overlap, Seed: seed, Doc: q.doc, WS: &v}, "API/WS ("+v.String()+"): "+what)
 					}
 				}
 			}
